@@ -269,6 +269,58 @@ func c12Chance(rt *rapid.T, label string, num, den int) bool {
 	return rapid.SampledFrom(tab).Draw(rt, label)
 }
 
+// c12Spell draws how an operator writes a subnet in reg_config.toml: canonical, or with host bits set
+// (copied from an interface address: lowest host, a high host, all-ones host part), and for IPv6 also
+// upper-case hex or fully expanded groups with leading zeros. Every spelling denotes the same subnet
+// (net.ParseCIDR accepts all of them; IPv4 octets with leading zeros are rejected by the parser and
+// therefore not generated).
+func c12Spell(rt *rapid.T, cidr string, label string) string {
+	_, n, err := net.ParseCIDR(cidr)
+	if err != nil {
+		return cidr
+	}
+	ones, bits := n.Mask.Size()
+	v6 := n.IP.To4() == nil
+	modes := []string{"canonical", "canonical", "host-low", "host-high", "host-ones"}
+	if v6 {
+		modes = append(modes, "upper", "expanded")
+	}
+	mode := rapid.SampledFrom(modes).Draw(rt, label+"_spelling")
+	ip := append(net.IP(nil), n.IP...)
+	if !v6 {
+		ip = ip.To4()
+	}
+	host := bits - ones
+	if strings.HasPrefix(mode, "host-") && host > 0 {
+		for i := range ip {
+			ip[i] |= ^n.Mask[i]
+		}
+		switch mode {
+		case "host-low":
+			for i := range ip {
+				ip[i] &= n.Mask[i]
+			}
+			ip[len(ip)-1] |= 1
+		case "host-high":
+			if host >= 2 {
+				ip[len(ip)-1] &^= 1 // all ones minus one
+			}
+		}
+	}
+	str := ip.String()
+	switch mode {
+	case "upper":
+		str = strings.ToUpper(str)
+	case "expanded":
+		var g []string
+		for i := 0; i < 16; i += 2 {
+			g = append(g, fmt.Sprintf("%02x%02x", ip[i], ip[i+1]))
+		}
+		str = strings.Join(g, ":")
+	}
+	return fmt.Sprintf("%s/%d", str, ones)
+}
+
 func c12GenPhantoms(rt *rapid.T) []C12PhGen {
 	if c12Chance(rt, "ph_default", 1, 4) {
 		return C12DefaultPhantoms()
@@ -342,7 +394,7 @@ func c12GenParamOvr(rt *rapid.T) []C12ParamOvr {
 
 func c12GenOvrSubnet(rt *rapid.T, pool []string) C12OvrSubnet {
 	s := C12OvrSubnet{
-		CIDR:      rapid.SampledFrom(pool).Draw(rt, "os_cidr"),
+		CIDR:      c12Spell(rt, rapid.SampledFrom(pool).Draw(rt, "os_cidr"), "os"),
 		Weight:    rapid.SampledFrom([]float64{0, 0.5, 1, 1, 2, 3, 10, 90}).Draw(rt, "os_weight"),
 		Transport: rapid.SampledFrom([]string{"Min_Transport", "Min_Transport", "Min_Transport", "Prefix_Transport", "Prefix_Transport", "Prefix_Transport", "Prefix_Transport", "Obfs4_Transport"}).Draw(rt, "os_transport"),
 	}
@@ -363,7 +415,7 @@ func c12GenOvrSubnet(rt *rapid.T, pool []string) C12OvrSubnet {
 // (weight, port and a transport label), or partially labelled; labels are the ones the configuration
 // format uses for override subnets, occasionally another string.
 func c12GenExcl(rt *rapid.T) C12Excl {
-	x := C12Excl{CIDR: rapid.SampledFrom(c12ExPool).Draw(rt, "excl")}
+	x := C12Excl{CIDR: c12Spell(rt, rapid.SampledFrom(c12ExPool).Draw(rt, "excl"), "excl")}
 	label := func() {
 		t := rapid.SampledFrom([]string{"Min_Transport", "Min_Transport", "Min_Transport", "Prefix_Transport", "Prefix_Transport", "Prefix_Transport", "Obfs4_Transport", "Min", "Prefix", ""}).Draw(rt, "excl_transport")
 		x.Transport = &t
@@ -584,11 +636,11 @@ func C12GenUsage(rt *rapid.T) C12UsageCase {
 	kPre := rapid.SampledFrom([]int{1, 2, 2, 3, 3, 4, 5}).Draw(rt, "k_prefix")
 	next := 0
 	for i := 0; i < kMin; i++ {
-		r.Subnets = append(r.Subnets, C12OvrSubnet{CIDR: perm[next], Weight: float64(rapid.IntRange(1, 3).Draw(rt, "w_min")), Transport: "Min_Transport", Port: 443})
+		r.Subnets = append(r.Subnets, C12OvrSubnet{CIDR: c12Spell(rt, perm[next], "min"), Weight: float64(rapid.IntRange(1, 3).Draw(rt, "w_min")), Transport: "Min_Transport", Port: 443})
 		next++
 	}
 	for i := 0; i < kPre; i++ {
-		r.Subnets = append(r.Subnets, C12OvrSubnet{CIDR: perm[next], Weight: float64(rapid.IntRange(1, 3).Draw(rt, "w_prefix")),
+		r.Subnets = append(r.Subnets, C12OvrSubnet{CIDR: c12Spell(rt, perm[next], "prefix"), Weight: float64(rapid.IntRange(1, 3).Draw(rt, "w_prefix")),
 			Transport: "Prefix_Transport", Port: rapid.SampledFrom(c12CfgPorts).Draw(rt, "port"), PrefixID: rapid.IntRange(-1, 9).Draw(rt, "prefix_id")})
 		next++
 	}
@@ -597,7 +649,7 @@ func C12GenUsage(rt *rapid.T) C12UsageCase {
 	nx := rapid.IntRange(0, 3).Draw(rt, "n_extra")
 	for i := 0; i < nx && next < len(perm); i++ {
 		tr := rapid.SampledFrom([]string{"Min_Transport", "Min_Transport", "Prefix_Transport", "Prefix_Transport", "Obfs4_Transport"}).Draw(rt, "extra_transport")
-		r.Subnets = append(r.Subnets, C12OvrSubnet{CIDR: perm[next], Weight: 0, Transport: tr, Port: 80, PrefixID: 1})
+		r.Subnets = append(r.Subnets, C12OvrSubnet{CIDR: c12Spell(rt, perm[next], "extra"), Weight: 0, Transport: tr, Port: 80, PrefixID: 1})
 		next++
 	}
 	r.Subnets = rapid.Permutation(r.Subnets).Draw(rt, "order")
@@ -1445,6 +1497,9 @@ func C12Run(e *C12Env, c C12Case, entry C12Entry) (res C12Result) {
 		for _, n := range pr.ovr {
 			if n.src.Transport == tname && tname != "" && n.Contains(got) {
 				in = true
+				if n.IPNet.String() != n.src.CIDR {
+					res.class("substituted-from-subnet-written-non-canonically")
+				}
 			}
 		}
 		if !c.Reg.Enforce || !in {
@@ -1641,6 +1696,26 @@ func C12RunUsage(e *C12Env, u C12UsageCase) (res C12Result, rows []C12UsageRow) 
 	for _, s := range u.Reg.Subnets {
 		rows = append(rows, C12UsageRow{Subnet: s})
 	}
+	// IPv4 phantom subnets of the case: an address outside all of them was substituted
+	var phNets []*net.IPNet
+	for _, g := range u.Phantoms {
+		for _, w := range g.Groups {
+			for _, sn := range w.Subnets {
+				if _, n, err := net.ParseCIDR(sn); err == nil && n.IP.To4() != nil {
+					phNets = append(phNets, n)
+				}
+			}
+		}
+	}
+	spelled := false
+	for _, s := range u.Reg.Subnets {
+		if _, n, err := net.ParseCIDR(s.CIDR); err == nil && s.Weight > 0 && n.String() != s.CIDR {
+			spelled = true
+		}
+	}
+	if spelled {
+		res.class("weighted-subnet-written-non-canonically")
+	}
 	multi := false
 	for _, tt := range []pb.TransportType{pb.TransportType_Min, pb.TransportType_Prefix} {
 		tname := c12TransportName(tt)
@@ -1699,6 +1774,24 @@ func C12RunUsage(e *C12Env, u C12UsageCase) (res C12Result, rows []C12UsageRow) 
 			for j, n := range pr.ovr {
 				if n.src.Transport == tname && n.Contains(got) {
 					hit = j
+				}
+			}
+			if hit < 0 && len(phNets) > 0 {
+				own := false
+				for _, pn := range phNets {
+					if pn.Contains(got) {
+						own = true
+					}
+				}
+				if !own {
+					var cfg []string
+					for _, n := range pr.ovr {
+						if n.src.Transport == tname {
+							cfg = append(cfg, n.src.CIDR)
+						}
+					}
+					res.bad("substitute:outside-configured-subnets", "request %d: IPv4 phantom %v of a %v registration is neither in a phantom subnet nor in any override subnet configured for the transport (as written in the configuration: %v)", i, got, tt, cfg)
+					return
 				}
 			}
 			if hit < 0 {
